@@ -52,71 +52,3 @@ Proof.
   - intros a b; destruct a, b; reflexivity.
   - intros a b; destruct a, b; split; intros H; try reflexivity; try discriminate.
 Qed.
-
-(* ------------------------------------------------------------------ bounded agreement of interpolate_batch with
-   interpolate over GF(7): exhaustive over the stated finite domains (kernel computation).  This is NOT the
-   unbounded interpolate_batch_spec (not proved); it is a sanity theorem about the model of interpolate_batch. *)
-Definition all7 : list F7 := [e0; e1; e2; e3; e4; e5; e6].
-Lemma all7_complete a : In a all7.
-Proof. destruct a; simpl; tauto. Qed.
-
-Fixpoint leqb {A} (e : A -> A -> bool) (l1 l2 : list A) : bool :=
-  match l1, l2 with
-  | [], [] => true
-  | a :: t1, b :: t2 => e a b && leqb e t1 t2
-  | _, _ => false
-  end.
-
-Lemma leqb_sound {A} (e : A -> A -> bool) : (forall a b, e a b = true -> a = b) ->
-  forall l1 l2, leqb e l1 l2 = true -> l1 = l2.
-Proof.
-  intros He. induction l1; destruct l2; simpl; intros H; try discriminate; auto.
-  apply andb_prop in H. destruct H as [H1 H2]. f_equal; auto.
-Qed.
-
-Definition res_eqb (r1 r2 : Result (list (list F7))) : bool :=
-  match r1, r2 with
-  | Ok a, Ok b => leqb (leqb (feqb f7_ops)) a b
-  | Panic, Panic => true
-  | _, _ => false
-  end.
-
-Lemma res_eqb_sound r1 r2 : res_eqb r1 r2 = true -> r1 = r2.
-Proof.
-  destruct r1, r2; simpl; intros H; try discriminate; auto. f_equal.
-  apply (leqb_sound (leqb (feqb f7_ops))); auto. apply leqb_sound. apply (fl_eqb_spec f7_ops f7_laws).
-Qed.
-
-(* what interpolate_batch must equal: interpolate on every batch *)
-Definition batchwise (xs ys : list (list F7)) : Result (list (list F7)) :=
-  mapM (fun xy => interpolate f7_ops true (fst xy) (snd xy) false) (combine xs ys).
-
-Definition all_in7 (f : F7 -> bool) : bool := forallb f all7.
-Lemma all_in7_spec f : all_in7 f = true -> forall a, f a = true.
-Proof. unfold all_in7. intros H a. rewrite forallb_forall in H. apply H, all7_complete. Qed.
-
-(* N = 3, one batch: all 7^5 inputs with the last Y fixed (repeated X coordinates and X = 0 included) *)
-Lemma batch_agrees_N3 : forall x0 x1 x2 y0 y1,
-  interpolate_batch f7_ops true 3 [[x0; x1; x2]] [[y0; y1; e4]] = batchwise [[x0; x1; x2]] [[y0; y1; e4]].
-Proof.
-  assert (H : all_in7 (fun x0 => all_in7 (fun x1 => all_in7 (fun x2 => all_in7 (fun y0 => all_in7 (fun y1 =>
-              res_eqb (interpolate_batch f7_ops true 3 [[x0; x1; x2]] [[y0; y1; e4]])
-                      (batchwise [[x0; x1; x2]] [[y0; y1; e4]])))))) = true)
-    by (vm_compute; reflexivity).
-  intros x0 x1 x2 y0 y1. apply res_eqb_sound.
-  apply (all_in7_spec _ (all_in7_spec _ (all_in7_spec _ (all_in7_spec _ (all_in7_spec _ H x0) x1) x2) y0) y1).
-Qed.
-
-(* N = 2, two batches: first batch (7^3, one Y fixed), second batch any X pair with fixed Y values; the roots vector
-   is reused between batches, so this exercises the independence from its previous content *)
-Lemma batch_agrees_N2_two : forall x0 x1 y0 u0 u1,
-  interpolate_batch f7_ops true 2 [[x0; x1]; [u0; u1]] [[y0; e6]; [e3; e5]]
-  = batchwise [[x0; x1]; [u0; u1]] [[y0; e6]; [e3; e5]].
-Proof.
-  assert (H : all_in7 (fun x0 => all_in7 (fun x1 => all_in7 (fun y0 => all_in7 (fun u0 => all_in7 (fun u1 =>
-              res_eqb (interpolate_batch f7_ops true 2 [[x0; x1]; [u0; u1]] [[y0; e6]; [e3; e5]])
-                      (batchwise [[x0; x1]; [u0; u1]] [[y0; e6]; [e3; e5]])))))) = true)
-    by (vm_compute; reflexivity).
-  intros x0 x1 y0 u0 u1. apply res_eqb_sound.
-  apply (all_in7_spec _ (all_in7_spec _ (all_in7_spec _ (all_in7_spec _ (all_in7_spec _ H x0) x1) y0) u0) u1).
-Qed.
